@@ -31,6 +31,7 @@ type modPersistSpec struct {
 	TypePkg  string // "x/perpetual/types"
 	TypeName string // "Pool"
 	Store    string // persister key: Store(ctx, T) / Store(ctx, *T)
+	Alt      []string // other ways the record legitimately ends: Destroy*(…)
 	Subjects map[*ssa.Function]bool
 	Scratch  map[string]string
 }
@@ -156,6 +157,11 @@ func checkModifiedPersistedX(P *core.Program, R *core.Report, spec modPersistSpe
 	}
 	// persisting instruction for record (param index or local) in fn
 	persistsP := map[pref]bool{}
+	for i, p := range storeFn.Params {
+		if isPtrTo(p.Type(), spec.TypePkg, spec.TypeName) {
+			persistsP[pref{storeFn, i}] = true // the persister persists what it is given
+		}
+	}
 	isPersistOf := func(fn *ssa.Function, ff *core.FuncFacts, in ssa.Instruction, param int, local *ssa.Alloc) bool {
 		c, ok := in.(ssa.CallInstruction)
 		if !ok {
@@ -174,6 +180,11 @@ func checkModifiedPersistedX(P *core.Program, R *core.Report, spec modPersistSpe
 		}
 		if calleeMatches(P, c, spec.Store) {
 			return matchesRec(cc.Args[len(cc.Args)-1])
+		}
+		for _, alt := range spec.Alt {
+			if calleeMatches(P, c, alt) {
+				return true // the record is destroyed: nothing left to write back
+			}
 		}
 		for ai, a := range cc.Args {
 			if !matchesRec(a) {
